@@ -19,20 +19,22 @@ import (
 	"verifsim/oracle/frame"
 	"verifsim/simnet"
 	"verifsim/simrt"
+	"verifsim/simsync"
 	"verifsim/tape"
 )
 
 var (
-	pFastPath       = simrt.NewProbe("cfb8.call.len>2blocks.disjoint (fast path)")
-	pFastPathCarry  = simrt.NewProbe("cfb8.fast.path.entered.with.carried.ivPos>0")
-	pInPlaceLong    = simrt.NewProbe("cfb8.call.len>2blocks.in.place")
-	pSlowAfterFast  = simrt.NewProbe("cfb8.short.call.after.fast.path")
-	pDstLarger      = simrt.NewProbe("cfb8.dst.larger.than.src")
-	pRingWrap       = simrt.NewProbe("cfb8.ring.buffer.wrapped(>=33.bytes.via.slow.path)")
-	pKey24          = simrt.NewProbe("key.24.bytes")
-	pKey32          = simrt.NewProbe("key.32.bytes")
-	pConnCompressed = simrt.NewProbe("conn.encrypted+compressed")
-	pIVSpare        = simrt.NewProbe("iv.slice.with.spare.capacity.shared.by.both.streams")
+	pFastPath        = simrt.NewProbe("cfb8.call.len>2blocks.disjoint (fast path)")
+	pFastPathCarry   = simrt.NewProbe("cfb8.fast.path.entered.with.carried.ivPos>0")
+	pInPlaceLong     = simrt.NewProbe("cfb8.call.len>2blocks.in.place")
+	pSlowAfterFast   = simrt.NewProbe("cfb8.short.call.after.fast.path")
+	pDstLarger       = simrt.NewProbe("cfb8.dst.larger.than.src")
+	pRingWrap        = simrt.NewProbe("cfb8.ring.buffer.wrapped(>=33.bytes.via.slow.path)")
+	pKey24           = simrt.NewProbe("key.24.bytes")
+	pKey32           = simrt.NewProbe("key.32.bytes")
+	pConnCompressed  = simrt.NewProbe("conn.encrypted+compressed")
+	pMidStreamSwitch = simrt.NewProbe("conn.encryption.switched.on.mid-stream")
+	pIVSpare         = simrt.NewProbe("iv.slice.with.spare.capacity.shared.by.both.streams")
 )
 
 func keyIV(tp *tape.Tape) (key, iv []byte) {
@@ -329,6 +331,23 @@ func scenarioConn(c *harness.Ctx) {
 		return ps
 	}
 	ab, ba := mk(1), mk(2)
+	// The first plainAB/plainBA packets of each direction are exchanged before
+	// encryption is switched on (as in the login flow); each side switches its
+	// writer right after sending them and its reader right after reading the
+	// peer's, without waiting for the other side.
+	plainAB, plainBA := 0, 0
+	if tp.Bool(1, 2) {
+		pMidStreamSwitch.Hit()
+		plainAB, plainBA = tp.Choose(min(len(ab), 3)+1), tp.Choose(min(len(ba), 3)+1)
+	}
+	closeAfter := tp.Bool(1, 2)
+	fixWindow := func(cfg *simnet.LinkCfg, prefix int) {
+		// both single-threaded prefix phases write before they read: the window
+		// must hold the plaintext prefix or the harness dead-locks itself
+		if prefix > 0 && cfg.Window > 0 && cfg.Window < 12000 {
+			cfg.Window = 12000
+		}
+	}
 	total := 0
 	for _, p := range ab {
 		total += len(p.data) + 10
@@ -339,6 +358,9 @@ func scenarioConn(c *harness.Ctx) {
 		total += len(p.data) + 10
 	}
 	cfgBA := simnet.DrawCfgFor(tp, total)
+	fixWindow(&cfgAB, plainAB)
+	fixWindow(&cfgBA, plainBA)
+	c.Config["plain_prefix"] = []int{plainAB, plainBA}
 	c.Config["threshold"] = threshold
 	c.Config["packets_ab"] = len(ab)
 	c.Config["packets_ba"] = len(ba)
@@ -350,40 +372,57 @@ func scenarioConn(c *harness.Ctx) {
 		ba2, _ := aes.NewCipher(key2)
 		bb1, _ := aes.NewCipher(key)
 		bb2, _ := aes.NewCipher(key2)
-		// A encrypts with (key,iv), decrypts with (key2,iv2); B the reverse
-		ca.SetCipher(CFB8.NewCFB8Encrypt(ba1, iv), CFB8.NewCFB8Decrypt(ba2, iv2))
-		cb.SetCipher(CFB8.NewCFB8Encrypt(bb2, iv2), CFB8.NewCFB8Decrypt(bb1, iv))
+		// A encrypts with (key,iv), decrypts with (key2,iv2); B the reverse.
+		// mcnet.Conn switches reader and writer together in SetCipher; with a
+		// plaintext prefix each side runs one task that does its writes up to the
+		// switch, then its reads up to the switch, then switches, and the rest in
+		// separate reader/writer tasks.
 		ca.SetThreshold(threshold)
 		cb.SetThreshold(threshold)
-		send := func(name string, conn *mcnet.Conn, ps []pkt) {
-			w.Go(name, func() {
-				for i, p := range ps {
-					if err := conn.WritePacket(pk.Packet{ID: p.id, Data: p.data}); err != nil {
-						c.Fail("conn.encrypted", "write", "error", "%s: WritePacket %d failed: %v", name, i, err)
-						return
-					}
+		write := func(name string, conn *mcnet.Conn, ps []pkt, from, to int) bool {
+			for i := from; i < to; i++ {
+				if err := conn.WritePacket(pk.Packet{ID: ps[i].id, Data: ps[i].data}); err != nil {
+					c.Fail("conn.encrypted", "write", "error", "%s: WritePacket %d failed: %v", name, i, err)
+					return false
 				}
+			}
+			return true
+		}
+		read := func(name string, conn *mcnet.Conn, ps []pkt, from, to int) bool {
+			var p pk.Packet
+			for i := from; i < to; i++ {
+				want := ps[i]
+				if err := conn.ReadPacket(&p); err != nil {
+					c.Fail("conn.encrypted", "read", "error", "%s: ReadPacket %d (len %d, threshold %d) failed: %v", name, i, len(want.data), threshold, err)
+					return false
+				}
+				if p.ID != want.id || !bytes.Equal(p.Data, want.data) {
+					c.Fail("conn.encrypted", "read", "mismatch", "%s: packet %d arrived as id=%d len=%d, sent id=%d len=%d (threshold %d, %d plaintext packets before the switch)", name, i, p.ID, len(p.Data), want.id, len(want.data), threshold, from)
+					return false
+				}
+			}
+			return true
+		}
+		side := func(name string, conn *mcnet.Conn, enc, dec cipher.Stream, out []pkt, plainOut int, in []pkt, plainIn int, raw *simnet.Conn) {
+			w.Go(name, func() {
+				if !write(name, conn, out, 0, plainOut) || !read(name, conn, in, 0, plainIn) {
+					return
+				}
+				conn.SetCipher(enc, dec)
+				var wg simsync.WaitGroup
+				wg.Add(1)
+				w.Go(name+"-send", func() {
+					defer wg.Done()
+					if write(name, conn, out, plainOut, len(out)) && closeAfter {
+						raw.CloseWrite()
+					}
+				})
+				read(name, conn, in, plainIn, len(in))
+				wg.Wait()
 			})
 		}
-		recv := func(name string, conn *mcnet.Conn, ps []pkt) {
-			w.Go(name, func() {
-				var p pk.Packet
-				for i, want := range ps {
-					if err := conn.ReadPacket(&p); err != nil {
-						c.Fail("conn.encrypted", "read", "error", "%s: ReadPacket %d (len %d, threshold %d) failed: %v", name, i, len(want.data), threshold, err)
-						return
-					}
-					if p.ID != want.id || !bytes.Equal(p.Data, want.data) {
-						c.Fail("conn.encrypted", "read", "mismatch", "%s: packet %d arrived as id=%d len=%d, sent id=%d len=%d (threshold %d)", name, i, p.ID, len(p.Data), want.id, len(want.data), threshold)
-						return
-					}
-				}
-			})
-		}
-		send("sendA", ca, ab)
-		send("sendB", cb, ba)
-		recv("recvA", ca, ba)
-		recv("recvB", cb, ab)
+		side("A", ca, CFB8.NewCFB8Encrypt(ba1, iv), CFB8.NewCFB8Decrypt(ba2, iv2), ab, plainAB, ba, plainBA, link.A)
+		side("B", cb, CFB8.NewCFB8Encrypt(bb2, iv2), CFB8.NewCFB8Decrypt(bb1, iv), ba, plainBA, ab, plainAB, link.B)
 	})
 	if c.Infra != "" {
 		return
@@ -397,10 +436,19 @@ func scenarioConn(c *harness.Ctx) {
 		return
 	}
 	// the wire, decrypted by the reference, must be a conformant frame stream
-	check := func(dir string, wire, k, v []byte, ps []pkt) {
-		plain := ref.New(k, v, true).Apply(wire)
-		rest := plain
-		for i, p := range ps {
+	check := func(dir string, wire, k, v []byte, ps []pkt, nPlain int) {
+		// the plaintext prefix is parsed as is; everything after it is decrypted
+		rest := wire
+		for i := 0; i < nPlain; i++ {
+			f, r, err := frame.Next(rest, threshold >= 0, threshold)
+			if err != nil || f.ID != ps[i].id || !bytes.Equal(f.Payload, ps[i].data) {
+				c.Fail("conn.encrypted", dir, "wire-plain-prefix", "plaintext frame %d before the switch is not on the wire as sent: %v", i, err)
+				return
+			}
+			rest = r
+		}
+		rest = ref.New(k, v, true).Apply(rest)
+		for i, p := range ps[nPlain:] {
 			f, r, err := frame.Next(rest, threshold >= 0, threshold)
 			if err != nil {
 				c.Fail("conn.encrypted", dir, "wire-unparseable", "reference-decrypted wire, frame %d: %v", i, err)
@@ -418,8 +466,8 @@ func scenarioConn(c *harness.Ctx) {
 	}
 	c.FoldBytes(link.TapAB())
 	c.FoldBytes(link.TapBA())
-	check("a->b", link.TapAB(), key, iv, ab)
-	check("b->a", link.TapBA(), key2, iv2, ba)
+	check("a->b", link.TapAB(), key, iv, ab, plainAB)
+	check("b->a", link.TapBA(), key2, iv2, ba, plainBA)
 }
 
 var prop = &harness.Property{
